@@ -60,9 +60,9 @@ CFG = dict(
                "Still partial: the upper bound for fraction < 1 without exactness, fraction in [0,1] as computed by the code, "
                "average ranks at a generic ordered carrier (proved at option R), which arrangement the selection picks on ties. "
                "The model is tied to the code by the differential run described in the rule. "
-               "Second, static tie (translator): the interpolation-method tables of vquantile (final match and the early returns of the descending branch: which of vi / vj / midpoint / linear each arm returns), its branch test, comparators and count guards, and the counting closure and kind table of vpercentile_of are re-extracted from the Rust source text on every run and Proofs/SrcTablesAgg.v re-proves, for every q / method / score / series, that Model/Quantile.v uses exactly those (src_vquantile_conforms, src_vpercentile_of_conforms).",
+               "Second, static tie (translator): the interpolation-method tables of vquantile (final match and the early returns of the descending branch: which of vi / vj / midpoint / linear each arm returns), its branch test, comparators and count guards, and the counting closure and kind table of vpercentile_of are re-extracted from the Rust source text on every run and Proofs/SrcTablesAgg.v re-proves, for every q / method / score / series, that Model/Quantile.v uses exactly those (src_vquantile_conforms, src_vpercentile_of_conforms). Likewise (Proofs/SrcTablesMapPart.v) the guards, padding, comparators, select_nth / truncate constants of vpartition / varg_partition and the comparator, length-1 return and tie-group rank expressions of vrank are re-extracted from vec_map.rs and proved to be those of Model/Partition.v / Model/Rank.v for every carrier, series, kth and flags (src_vpartition_conforms, src_varg_partition_conforms, src_rk_avg_conforms, src_rk_one_conforms, src_vrank_conforms).",
     src_tables=True,   # tools/gen_tables.py + Proofs/SrcTablesAgg.v: decision tables regenerated from the Rust source on every run
-    src_tables_proofs=["Proofs/SrcTablesAgg.vo"],
+    src_tables_proofs=["Proofs/SrcTablesAgg.vo", "Proofs/SrcTablesMapPart.vo"],
     level_note="Trusted: Coq kernel + Reals axioms for the theorems stated over option R; for the binary64 theorems "
                "additionally the standard library's specification of the primitive float operations (Floats/FloatAxioms.v: "
                "Prim2SF_valid, SF2Prim_Prim2SF, Prim2SF_SF2Prim, mul_spec, sub_spec, opp_spec, abs_spec, of_uint63_spec, "
